@@ -1,4 +1,4 @@
-\* thorough: nsq_to_nsq shape (async), hostpool, all properties, with ONE request lost together with its
+\* thorough: nsq_to_nsq shape (async), hostpool, safety + refinement (liveness with ConnLost: Relay_live.cfg), with ONE request lost together with its
 \* connection (ConnLost: fails at the relay without a schedule item, possibly after the destination accepted it)
 \* and <= 2 non-accepts
 SPECIFICATION Spec
@@ -16,5 +16,5 @@ CONSTANTS
   MaxAttempts = 0
   Filter = FALSE
 INVARIANTS TypeOK FinOnlyAfterAccept ReqOtherwise Unmodified AtLeastOnce NeverLost
-PROPERTIES Refines FailedIsRequeued EventuallyArrives Settles
+PROPERTIES Refines FailedIsRequeued
 CHECK_DEADLOCK FALSE
